@@ -90,7 +90,7 @@ Step ==
                                   ELSE IF Cfg.unordered THEN (IF <<e.c, e.k>> \in seen THEN {"C02", "C16"} ELSE {})
                                   ELSE IF e.k <= rc[e.c] THEN {"C02", "C16"}
                                   ELSE IF e.k # rc[e.c] + 1 /\ ~stop THEN {"C02"} ELSE {})
-                            \cup Also17(IF InFlight + 1 > Cfg.H THEN {"C01"} ELSE {})
+                            \cup Also17(IF InFlight + 1 > Cfg.H THEN {"C01"} \cup (IF Cfg.fault THEN {"C15"} ELSE {}) ELSE {})
                             \cup (IF Saturated /\ e.p \in Prios /\ nr[e.p] + 1 - nl[e.p] > ShareOf(e.p) THEN {"C05"} ELSE {})
                             \cup (IF oc THEN {"C07"} ELSE {})
                        /\ UNCHANGED <<wr, nl, cl, dead, added, live, oc, ec, stop, stopret, grace>>
